@@ -6,38 +6,22 @@ package main
 import (
 	"bytes"
 	"fmt"
-	"strings"
 
 	"github.com/zmap/zcrypto/tls"
+	"verifharness/c30/tlsfmt"
 	"verifharness/vh"
 )
 
-// ---- val printers ----
-func vB(b []byte) string { return "(VB " + hb(b) + ")" }
-func vN(x uint64) string { return "(VN " + vh.N(x) + ")" }
-func vFlag(b bool) string {
-	if b {
-		return "(VN 1%N)"
-	}
-	return "(VN 0%N)"
-}
-func vL(xs []string) string      { return "(VL [" + strings.Join(xs, "; ") + "])" }
-func vP(a, b string) string      { return "(VP " + a + " " + b + ")" }
-func vSlots(xs ...string) string { return "[" + strings.Join(xs, "; ") + "]" }
-func vLB(l [][]byte) string {
-	xs := make([]string, len(l))
-	for i, b := range l {
-		xs[i] = vB(b)
-	}
-	return vL(xs)
-}
-func vLN(l []uint16) string {
-	xs := make([]string, len(l))
-	for i, x := range l {
-		xs[i] = vN(uint64(x))
-	}
-	return vL(xs)
-}
+// ---- val printers (shared with the C29 harness) ----
+func vB(b []byte) string             { return tlsfmt.VB(b) }
+func vN(x uint64) string             { return tlsfmt.VN(x) }
+func vFlag(b bool) string            { return tlsfmt.VFlag(b) }
+func vL(xs []string) string          { return tlsfmt.VL(xs) }
+func vP(a, b string) string          { return tlsfmt.VP(a, b) }
+func vSlots(xs ...string) string     { return tlsfmt.VSlots(xs...) }
+func vLB(l [][]byte) string          { return tlsfmt.VLB(l) }
+func vLN(l []uint16) string          { return tlsfmt.VLN(l) }
+func chSlots(m *tls.VerifMsg) string { return tlsfmt.CHSlots(m) }
 func vOptB(b []byte) string {
 	if b == nil {
 		return "VU"
@@ -150,24 +134,6 @@ func shSlots(m *tls.VerifMsg) string {
 		vLB(m.UnknownExtensions))
 }
 
-func chSlots(m *tls.VerifMsg) string {
-	ks := make([]string, len(m.KeyShares))
-	for i, k := range m.KeyShares {
-		ks[i] = vP(vN(uint64(k.Group)), vB(k.Data))
-	}
-	ids := make([]string, len(m.PSKIdentities))
-	for i, p := range m.PSKIdentities {
-		ids[i] = vP(vB(p.Label), vN(uint64(p.ObfuscatedTicketAge)))
-	}
-	return vSlots(vB(m.ServerName), vFlag(m.OCSPStapling), vLN(m.SupportedCurves), vB(m.SupportedPoints),
-		vP(vFlag(m.TicketSupported), vB(m.SessionTicket)),
-		vLN(m.SupportedSignatureAlgorithms), vLN(m.SupportedSignatureAlgorithmsCert),
-		vP(vFlag(m.SecureRenegotiationSupported), vB(m.SecureRenegotiation)),
-		vLB(m.ALPNProtocols), vP(vFlag(m.ExtendedRandomEnabled), vB(m.ExtendedRandom)),
-		vFlag(m.ExtendedMasterSecret), vFlag(m.SCTs), vLN(m.SupportedVersions), vB(m.Cookie),
-		vL(ks), vFlag(m.EarlyData), vB(m.PSKModes), vP(vL(ids), vLB(m.PSKBinders)))
-}
-
 // cut before the extension block of a hello encoding (-1 if it cannot be located)
 func shCut(enc []byte) int {
 	if len(enc) < 39 {
@@ -196,6 +162,188 @@ func chCut(enc []byte) int {
 		return -1
 	}
 	return n
+}
+
+const (
+	modeTypical = iota // valid, ordinary sizes
+	modeMin            // valid, smallest / boundary content
+	modeBad            // outside the round-trip domain (empty element, dangling data, ...)
+)
+
+// n elements: typical 1..max, min 1
+func cnt(c *vh.Ctx, mode, max int) int {
+	if mode == modeMin {
+		return 1
+	}
+	return 1 + c.Intn(max)
+}
+
+const numSHExt = 13
+
+func setSHExt(c *vh.Ctx, m *tls.VerifMsg, j, mode int) {
+	switch j {
+	case 0:
+		m.OCSPStapling = true
+	case 1:
+		m.TicketSupported = true
+	case 2:
+		m.SecureRenegotiationSupported = mode != modeBad
+		m.SecureRenegotiation = c.Bytes(c.Intn(30))
+		if mode == modeMin {
+			m.SecureRenegotiation = nil
+		}
+		if mode == modeBad {
+			m.SecureRenegotiation = c.Bytes(3) // data without the flag: lost
+		}
+	case 3:
+		m.ALPNProtocol = c.Bytes(cnt(c, mode, 10))
+	case 4:
+		m.SCTList = randList(c, cnt(c, mode, 4), 30, false)
+		if mode == modeMin {
+			m.SCTList = [][]byte{{7}}
+		}
+		if mode == modeBad {
+			m.SCTList[c.Intn(len(m.SCTList))] = []byte{}
+		}
+	case 5:
+		m.SupportedVersion = uint16(1 + c.Intn(65535))
+		if mode == modeMin {
+			m.SupportedVersion = 1
+		}
+	case 6:
+		m.ServerShare = tls.VerifKeyShare{Group: uint16(1 + c.Intn(65535)), Data: c.Bytes(c.Intn(40))}
+		if mode == modeMin {
+			m.ServerShare = tls.VerifKeyShare{Group: 1}
+		}
+		if mode == modeBad {
+			m.ServerShare = tls.VerifKeyShare{Group: 0, Data: c.Bytes(2)}
+		}
+	case 7:
+		m.SelectedIdentityPresent = mode != modeBad
+		m.SelectedIdentity = uint16(c.U64())
+		if mode == modeMin {
+			m.SelectedIdentity = 0
+		}
+		if mode == modeBad {
+			m.SelectedIdentity = 7
+		}
+	case 8:
+		m.Cookie = c.Bytes(cnt(c, mode, 40))
+	case 9:
+		m.SelectedGroup = uint16(1 + c.Intn(65535))
+		if mode == modeMin {
+			m.SelectedGroup = 1
+		}
+	case 10:
+		m.SupportedPoints = c.Bytes(cnt(c, mode, 4))
+	case 11:
+		m.ExtendedMasterSecret = true
+	case 12:
+		for k := 0; k < cnt(c, mode, 2); k++ {
+			t := []uint16{15, 13172, 1, 0, 10, 0xfafa, 21}[c.Intn(7)]
+			d := c.Bytes(c.Intn(6))
+			if mode == modeMin {
+				d = nil
+			}
+			raw := append([]byte{byte(t >> 8), byte(t), 0, byte(len(d))}, d...)
+			if mode == modeBad {
+				switch c.Intn(3) {
+				case 0:
+					raw = raw[:len(raw)-1] // truncated
+				case 1:
+					raw[0], raw[1] = 0, 23 // a known type smuggled in
+				case 2:
+					raw = append(raw, 0) // trailing byte
+				}
+			}
+			m.UnknownExtensions = append(m.UnknownExtensions, raw)
+		}
+	}
+}
+
+const numCHExt = 18
+
+func setCHExt(c *vh.Ctx, m *tls.VerifMsg, j, mode int) {
+	switch j {
+	case 0:
+		m.ServerName = c.Bytes(cnt(c, mode, 20))
+		if mode == modeBad {
+			m.ServerName[len(m.ServerName)-1] = '.'
+		}
+	case 1:
+		m.OCSPStapling = true
+	case 2:
+		m.SupportedCurves = randU16s(c, cnt(c, mode, 8))
+	case 3:
+		m.SupportedPoints = c.Bytes(cnt(c, mode, 3))
+	case 4:
+		m.TicketSupported = mode != modeBad
+		m.SessionTicket = c.Bytes(c.Intn(3) * c.Intn(60))
+		if mode == modeMin {
+			m.SessionTicket = nil
+		}
+		if mode == modeBad {
+			m.SessionTicket = c.Bytes(4) // ticket without the flag: lost
+		}
+	case 5:
+		m.SupportedSignatureAlgorithms = randU16s(c, cnt(c, mode, 8))
+	case 6:
+		m.SupportedSignatureAlgorithmsCert = randU16s(c, cnt(c, mode, 8))
+	case 7:
+		m.SecureRenegotiationSupported = mode != modeBad
+		m.SecureRenegotiation = c.Bytes(c.Intn(2) * c.Intn(40))
+		if mode == modeBad {
+			m.SecureRenegotiation = c.Bytes(2)
+		}
+	case 8:
+		m.ALPNProtocols = randList(c, cnt(c, mode, 5), 12, false)
+		if mode == modeMin {
+			m.ALPNProtocols = [][]byte{{'h'}}
+		}
+		if mode == modeBad {
+			m.ALPNProtocols[c.Intn(len(m.ALPNProtocols))] = []byte{}
+		}
+	case 9:
+		m.ExtendedRandomEnabled = true
+		m.ExtendedRandom = c.Bytes(cnt(c, mode, 32))
+		if mode == modeBad {
+			m.ExtendedRandom = nil
+		}
+	case 10:
+		m.ExtendedMasterSecret = true
+	case 11:
+		m.SCTs = true
+	case 12:
+		m.SupportedVersions = randU16s(c, cnt(c, mode, 8))
+	case 13:
+		m.Cookie = c.Bytes(cnt(c, mode, 60))
+	case 14:
+		for k := 0; k < cnt(c, mode, 4); k++ {
+			m.KeyShares = append(m.KeyShares, tls.VerifKeyShare{Group: uint16(c.U64()), Data: c.Bytes(cnt(c, mode, 40))})
+		}
+		if mode == modeBad {
+			m.KeyShares[c.Intn(len(m.KeyShares))].Data = nil
+		}
+	case 15:
+		m.EarlyData = true
+	case 16:
+		m.PSKModes = c.Bytes(cnt(c, mode, 2))
+	case 17:
+		for k := 0; k < cnt(c, mode, 4); k++ {
+			m.PSKIdentities = append(m.PSKIdentities, tls.VerifPSKIdentity{Label: c.Bytes(cnt(c, mode, 40)), ObfuscatedTicketAge: uint32(c.U64())})
+			m.PSKBinders = append(m.PSKBinders, c.Bytes(cnt(c, mode, 48)))
+		}
+		if mode == modeBad {
+			switch c.Intn(3) {
+			case 0:
+				m.PSKIdentities[c.Intn(len(m.PSKIdentities))].Label = nil
+			case 1:
+				m.PSKBinders = nil
+			case 2:
+				m.PSKBinders[c.Intn(len(m.PSKBinders))] = nil
+			}
+		}
+	}
 }
 
 func maybe(c *vh.Ctx, num, den int) bool { return c.Intn(den) < num }
@@ -228,8 +376,8 @@ func init() {
 				if i%2 == 1 {
 					m.MaxEarlyData = uint32(c.U64())
 				}
-				if i == 3 {
-					m.MaxEarlyData = 0xffffffff
+				if med := []uint32{0, 1, 255, 256, 65535, 65536, 0xffffffff}; i < len(med) {
+					m.MaxEarlyData = med[i]
 				}
 				out = append(out, val{false, m})
 			}
@@ -355,66 +503,37 @@ func init() {
 	kinds[tls.VerifKindServerHello] = &kindInfo{name: "serverHello", ctor: "KSH", typ: 2, optTailCut: shCut,
 		gen: func(c *vh.Ctx, n int) []val {
 			var out []val
-			for i := 0; i < n; i++ {
-				m := &tls.VerifMsg{Vers: uint16(c.U64()), Random: c.Bytes(32), SessionID: c.Bytes(size(c, i, []int{0, 32, 1, 255}, 32)),
+			base := func(i int) *tls.VerifMsg {
+				return &tls.VerifMsg{Vers: uint16(c.U64()), Random: c.Bytes(32), SessionID: c.Bytes(size(c, i, []int{0, 32, 1, 255}, 32)),
 					CipherSuite: uint16(c.U64()), CompressionMethod: uint8(c.U64())}
+			}
+			// every extension alone, with boundary / invalid content
+			for j := 0; j < numSHExt; j++ {
+				for _, mode := range []int{modeMin, modeBad} {
+					m := base(4)
+					setSHExt(c, m, j, mode)
+					out = append(out, val{false, m})
+				}
+			}
+			for i := 0; i < n; i++ {
+				m := base(i)
 				p := 3
 				if i == 0 {
 					p = 0 // no extensions at all
 				}
 				if i == 1 {
-					p = 8 // (almost) everything
+					p = 8 // everything
 				}
-				m.OCSPStapling = maybe(c, p, 8)
-				m.TicketSupported = maybe(c, p, 8)
-				if maybe(c, p, 8) {
-					m.SecureRenegotiationSupported = true
-					m.SecureRenegotiation = c.Bytes(c.Intn(30))
-				} else if c.Intn(15) == 0 {
-					m.SecureRenegotiation = c.Bytes(3) // lost: not in the round-trip domain
-				}
-				m.ExtendedMasterSecret = maybe(c, p, 8)
-				if maybe(c, p, 8) {
-					m.ALPNProtocol = c.Bytes(1 + c.Intn(10))
-				}
-				if maybe(c, p, 8) {
-					m.SCTList = randList(c, 1+c.Intn(3), 30, c.Intn(8) == 0)
-				}
-				if maybe(c, p, 8) {
-					m.SupportedVersion = uint16(c.U64())
-				}
-				if maybe(c, p, 8) {
-					m.ServerShare = tls.VerifKeyShare{Group: uint16(1 + c.Intn(65535)), Data: c.Bytes(c.Intn(40))}
-				} else if c.Intn(15) == 0 {
-					m.ServerShare.Data = c.Bytes(2)
-				}
-				if maybe(c, p, 8) {
-					m.SelectedIdentityPresent = true
-					m.SelectedIdentity = uint16(c.U64())
-				} else if c.Intn(15) == 0 {
-					m.SelectedIdentity = 7
-				}
-				if maybe(c, p, 8) {
-					m.Cookie = c.Bytes(1 + c.Intn(40))
-				}
-				if maybe(c, p, 8) && i != 1 {
-					m.SelectedGroup = uint16(1 + c.Intn(65535))
-				}
-				if maybe(c, p, 8) {
-					m.SupportedPoints = c.Bytes(1 + c.Intn(4))
-				}
-				if maybe(c, p, 8) {
-					for j := 0; j < 1+c.Intn(2); j++ {
-						t := []uint16{15, 13172, 1, 0, 10, 0xfafa, 21}[c.Intn(7)]
-						d := c.Bytes(c.Intn(6))
-						raw := append([]byte{byte(t >> 8), byte(t), 0, byte(len(d))}, d...)
-						if c.Intn(12) == 0 {
-							raw = raw[:len(raw)-1] // malformed
+				for j := 0; j < numSHExt; j++ {
+					if maybe(c, p, 8) && !(i == 1 && j == 9) {
+						mode := modeTypical
+						if c.Intn(10) == 0 {
+							mode = modeBad
 						}
-						if c.Intn(12) == 0 {
-							raw[0], raw[1] = 0, 23 // a known type smuggled in
+						if c.Intn(10) == 0 {
+							mode = modeMin
 						}
-						m.UnknownExtensions = append(m.UnknownExtensions, raw)
+						setSHExt(c, m, j, mode)
 					}
 				}
 				if i == 2 {
@@ -479,12 +598,23 @@ func init() {
 	kinds[tls.VerifKindClientHello] = &kindInfo{name: "clientHello", ctor: "KCH", typ: 1, optTailCut: chCut,
 		gen: func(c *vh.Ctx, n int) []val {
 			var out []val
-			for i := 0; i < n; i++ {
+			base := func(i int) *tls.VerifMsg {
 				m := &tls.VerifMsg{Vers: uint16(c.U64()), Random: c.Bytes(32), SessionID: c.Bytes(size(c, i, []int{0, 32, 1, 255}, 32)),
 					CipherSuites: randU16s(c, size(c, i, []int{1, 0, 2, 40}, 8)), CompressionMethods: c.Bytes(size(c, i, []int{1, 0, 2, 255}, 3))}
 				if c.Intn(6) == 0 && len(m.CipherSuites) > 0 {
 					m.CipherSuites[c.Intn(len(m.CipherSuites))] = 0x00ff
 				}
+				return m
+			}
+			for j := 0; j < numCHExt; j++ {
+				for _, mode := range []int{modeMin, modeBad} {
+					m := base(4)
+					setCHExt(c, m, j, mode)
+					out = append(out, val{false, m})
+				}
+			}
+			for i := 0; i < n; i++ {
+				m := base(i)
 				p := 3
 				if i == 0 {
 					p = 0
@@ -492,88 +622,23 @@ func init() {
 				if i == 1 {
 					p = 8
 				}
-				if maybe(c, p, 8) {
-					m.ServerName = c.Bytes(1 + c.Intn(20))
-					if c.Intn(8) == 0 {
-						m.ServerName[len(m.ServerName)-1] = '.'
-					}
-				}
-				m.OCSPStapling = maybe(c, p, 8)
-				if maybe(c, p, 8) {
-					m.SupportedCurves = randU16s(c, 1+c.Intn(5))
-				}
-				if maybe(c, p, 8) {
-					m.SupportedPoints = c.Bytes(1 + c.Intn(3))
-				}
-				if maybe(c, p, 8) {
-					m.TicketSupported = true
-					m.SessionTicket = c.Bytes(c.Intn(3) * c.Intn(60))
-				} else if c.Intn(15) == 0 {
-					m.SessionTicket = c.Bytes(4)
-				}
-				if maybe(c, p, 8) {
-					m.SupportedSignatureAlgorithms = randU16s(c, 1+c.Intn(6))
-				}
-				if maybe(c, p, 8) {
-					m.SupportedSignatureAlgorithmsCert = randU16s(c, 1+c.Intn(6))
-				}
-				if maybe(c, p, 8) {
-					m.SecureRenegotiationSupported = true
-					m.SecureRenegotiation = c.Bytes(c.Intn(2) * c.Intn(40))
-				} else if c.Intn(15) == 0 {
-					m.SecureRenegotiation = c.Bytes(2)
-				}
-				if maybe(c, p, 8) {
-					m.ALPNProtocols = randList(c, 1+c.Intn(4), 12, c.Intn(8) == 0)
-				}
-				if maybe(c, p, 8) {
-					m.ExtendedRandomEnabled = true
-					m.ExtendedRandom = c.Bytes(1 + c.Intn(32))
-					if c.Intn(8) == 0 {
-						m.ExtendedRandom = nil
-					}
-				}
-				m.ExtendedMasterSecret = maybe(c, p, 8)
-				m.SCTs = maybe(c, p, 8)
-				if maybe(c, p, 8) {
-					m.SupportedVersions = randU16s(c, 1+c.Intn(4))
-				}
-				if maybe(c, p, 8) {
-					m.Cookie = c.Bytes(1 + c.Intn(60))
-				}
-				if maybe(c, p, 8) {
-					for j := 0; j < 1+c.Intn(3); j++ {
-						ks := tls.VerifKeyShare{Group: uint16(c.U64()), Data: c.Bytes(1 + c.Intn(40))}
+				for j := 0; j < numCHExt; j++ {
+					if maybe(c, p, 8) {
+						mode := modeTypical
 						if c.Intn(10) == 0 {
-							ks.Data = nil
+							mode = modeBad
 						}
-						m.KeyShares = append(m.KeyShares, ks)
-					}
-				}
-				m.EarlyData = maybe(c, p, 8)
-				if maybe(c, p, 8) {
-					m.PSKModes = c.Bytes(1 + c.Intn(2))
-				}
-				if maybe(c, p, 8) {
-					for j := 0; j < 1+c.Intn(3); j++ {
-						id := tls.VerifPSKIdentity{Label: c.Bytes(1 + c.Intn(40)), ObfuscatedTicketAge: uint32(c.U64())}
-						if c.Intn(12) == 0 {
-							id.Label = nil
+						if c.Intn(10) == 0 {
+							mode = modeMin
 						}
-						m.PSKIdentities = append(m.PSKIdentities, id)
-						m.PSKBinders = append(m.PSKBinders, c.Bytes(32+c.Intn(17)))
+						setCHExt(c, m, j, mode)
 					}
-					if c.Intn(10) == 0 {
-						m.PSKBinders = nil
-					}
-					if len(m.PSKBinders) > 0 && c.Intn(10) == 0 {
-						m.PSKBinders[0] = nil
-					}
-				} else if c.Intn(15) == 0 {
-					m.PSKBinders = [][]byte{c.Bytes(32)}
 				}
 				if i == 2 {
 					m.Random = c.Bytes(33)
+				}
+				if i == 3 {
+					m.PSKBinders = [][]byte{c.Bytes(32)} // binders without identities: lost
 				}
 				out = append(out, val{false, m})
 			}
